@@ -44,3 +44,15 @@ func TestWitnessC08_PaddingNotBudgeted(t *testing.T) {
 		t.Fatalf("marshalled report is %d bytes, limit %d", len(b), maxSize)
 	}
 }
+
+// floor(1024 x 7.998 s) = 8189 = 0x1FFD is the largest representable offset and must be reported as such
+// (the first saturation fix compared the unrounded value and reported 0x1FFE).
+func TestWitnessC08_LargestRepresentableOffset(t *testing.T) {
+	base := time.Date(2024, 1, 1, 0, 0, 0, 0, time.UTC)
+	if got := getArrivalTimeOffset(base, base.Add(-7998*time.Millisecond)); got != 0x1FFD {
+		t.Fatalf("offset of a 7.998 s old packet = %#x, want 0x1ffd", got)
+	}
+	if got := getArrivalTimeOffset(base, base.Add(-7998500*time.Microsecond)); got != 0x1FFE {
+		t.Fatalf("offset of a 7.9985 s old packet = %#x, want 0x1ffe", got)
+	}
+}
